@@ -94,6 +94,9 @@ func (e *Engine) havocFamilies(st *State, fams []string) {
 	}
 }
 
+// sizeBound bounds in-memory element counts and stream lengths (user-space address space of amd64).
+const sizeBound = 1 << 47
+
 // Engine verifies one function (one SMT context).
 type Engine struct {
 	C           *smt.Ctx
@@ -120,6 +123,7 @@ type Engine struct {
 	version     int
 	nameSeen    map[string]int
 	quiet       int
+	noAssume    int // inside quantifier bodies side facts would capture the bound variable
 	implQueries map[string]types.Type
 }
 
@@ -139,7 +143,7 @@ func (e *Engine) note(s string) {
 }
 
 func (e *Engine) assume(st *State, t *smt.Term) {
-	if t.IsTrue() {
+	if t.IsTrue() || e.noAssume > 0 {
 		return
 	}
 	e.Assumes = append(e.Assumes, e.C.Implies(st.Reach, t))
@@ -268,7 +272,7 @@ func (e *Engine) validSlice(st *State, v Val) *smt.Term {
 		c.Op(">=", smt.Bool, v.Terms[0], c.IntLit(0)), c.Op("<", smt.Bool, v.Terms[0], st.Alloc),
 		c.Op("bvsle", smt.Bool, z, v.Terms[1]), c.Op("bvsle", smt.Bool, z, v.Terms[2]), c.Op("bvsle", smt.Bool, v.Terms[2], v.Terms[3]),
 		// total extent fits: off+cap does not overflow (sizes < 2^62)
-		c.Op("bvsle", smt.Bool, v.Terms[1], c.BVLit64(1<<62, 64)), c.Op("bvsle", smt.Bool, v.Terms[3], c.BVLit64(1<<62, 64)),
+		c.Op("bvsle", smt.Bool, v.Terms[1], c.BVLit64(sizeBound, 64)), c.Op("bvsle", smt.Bool, v.Terms[3], c.BVLit64(sizeBound, 64)),
 		c.Implies(c.Eq(v.Terms[0], c.IntLit(0)), c.And(c.Eq(v.Terms[2], z), c.Eq(v.Terms[3], z), c.Eq(v.Terms[1], z))),
 	)
 }
@@ -348,6 +352,12 @@ func (e *Engine) allocCell(st *State, t types.Type) Val {
 	ref := e.newRef(st)
 	p := Val{Typ: types.NewPointer(t), Terms: []*smt.Term{ref}, Ptr: e.wholePtr(t)}
 	e.store(st, p, e.zero(t))
+	if ts := typeStr(t); ts == "bytes.Buffer" || ts == "bytes.Reader" {
+		// the zero Buffer is empty
+		e.ghostSet(st, gCount, ref, e.C.BVLit64(0, 64))
+		e.ghostSet(st, gPos, ref, e.C.BVLit64(0, 64))
+		e.ghostSet(st, pAvail, ref, e.C.BVLit64(0, 64))
+	}
 	return p
 }
 
